@@ -299,7 +299,12 @@ def get_max_advance(world: World, sim: SimRunner, until: int) -> int:
     """
     ancs_next_steps: List[Time] = []
     for anc_sim, distance in sim.triggering_ancestors.items():
-        if anc_sim.next_steps:
+        # An ancestor that is performing a step right now has already
+        # removed that step from its next_steps, but its output can
+        # still trigger us.
+        if anc_sim.current_step is not None and anc_sim is not sim:
+            ancs_next_steps.append((anc_sim.current_step + distance).time)
+        elif anc_sim.next_steps:
             ancs_next_steps.append((anc_sim.next_steps[0] + distance).time)
 
     own_next_step = [sim.next_steps[0].time] if sim.next_steps else []
@@ -466,10 +471,17 @@ def get_avg_progress(sims: Dict[SimId, SimRunner], until: int) -> int:
 
 
 def advance_progress(sim: SimRunner, world: World):
+    # An ancestor that is performing a step right now has already
+    # removed that step from its next_steps, but its output can still
+    # trigger us.
     pre_sim_induced_progress: List[TieredTime] = [
-        pre_sim.next_steps[0] + distance
+        (
+            pre_sim.current_step
+            if pre_sim.current_step is not None and pre_sim is not sim
+            else pre_sim.next_steps[0]
+        ) + distance
         for pre_sim, distance in sim.triggering_ancestors.items()
-        if pre_sim.next_steps
+        if pre_sim.next_steps or (pre_sim.current_step is not None and pre_sim is not sim)
     ]
 
     next_step_progress: List[TieredTime] = [sim.next_steps[0]] if sim.next_steps else []
